@@ -58,6 +58,11 @@ def main(argv=None):
             if selftest['failed']:
                 for f in selftest['failed']:
                     rep.error('self-test: ' + f)
+            # false-alarm stress: every local of every anchored function renamed, comparisons mirrored, no-ops inserted
+            stress = st.stress(prop, mod, rep)
+            selftest['neutral_stress'] = dict(anchored_functions=stress['anchored_functions'], variants=stress['variants'], alarms=stress['alarms'][:10])
+            for a in stress['alarms'][:10]:
+                rep.error('neutral stress: behaviour-preserving variant raised an alarm: ' + a)
         if args.replay:
             try:
                 want = json.load(open(args.replay))
